@@ -6,6 +6,7 @@ usage: pydrv_zs.py <zones.json> <out.json> <mode> [start_year until_year]
   mode: instants  -> run-length pieces of get_timezone_info_for_seconds for all 8 option combinations
         wall      -> for the windows given in zones.json["windows"][name] = [[w0, w1], ..]: run-length of the offset selected by
                      get_timezone_info_for_datetime (default options and one alternative)
+        tables    -> the finished per-year transition table of a fresh ZoneSpecifier for every year (binding of ExtProc.tla)
         history   -> seeded random call histories on one reused ZoneSpecifier vs a fresh one per call (C08, Python cache)
 """
 import datetime
@@ -171,6 +172,30 @@ def history_job(args):
     return name, bad, events
 
 
+def tables_job(args):
+    """the finished per-year table of a fresh ZoneSpecifier (default options), in the shape ExtProc_MC judges"""
+    name, y0, y1 = args
+    zi = _G['infos'][name]
+    years = {}
+    for y in range(y0, y1 + 1):
+        zs = ZoneSpecifier(zi)
+        try:
+            zs.init_for_year(y)
+        except SystemExit:
+            years[str(y)] = {'filled': 0, 'nm': 0, 'hw': -1, 'rows': [], 'error': 'exit'}
+            continue
+        except Exception as e:
+            years[str(y)] = {'filled': 0, 'nm': 0, 'hw': -1, 'rows': [], 'error': type(e).__name__}
+            continue
+        rows = []
+        for t in zs.transitions:
+            sd, ud = t.startDateTime, t.untilDateTime
+            rows.append([t.startEpochSecond, t.offsetSeconds // 60, t.deltaSeconds // 60, t.abbrev,
+                         [sd.y, sd.M, sd.d, sd.ss // 60, sd.f], [ud.y, ud.M, ud.d, ud.ss // 60, ud.f]])
+        years[str(y)] = {'filled': 1, 'nm': len(zs.matches), 'hw': -1, 'rows': rows, 'est': zs.max_transition_buffer_size}
+    return name, years
+
+
 def main():
     data = json.load(open(sys.argv[1]))
     mode = sys.argv[3]
@@ -201,6 +226,9 @@ def main():
                 nobs += k
             res['wall'] = wall
             res['nobs'] = nobs
+        elif mode == 'tables':
+            out = pool.map(tables_job, [(n, y0, y1) for n in names], chunksize=4)
+            res['tables'] = dict(out)
         elif mode == 'history':
             seed = data.get('seed', 0)
             out = pool.map(history_job, [(n, seed * 100003 + i, data.get('length', 40)) for i, n in enumerate(names)], chunksize=2)
